@@ -157,8 +157,8 @@ KEY_CONST = "const-suggestion-skipped-for-typedef-pointer"
 CONST_IDS = {"constParameterPointer", "constVariablePointer", "constParameter", "constVariable", "constParameterCallback"}
 KEY_PORT = "address-to-integer-not-reported-for-typedef-integer"
 PORT_IDS = {"AssignmentAddressToInteger", "AssignmentIntegerToAddress", "CastAddressToIntegerAtReturn", "CastIntegerToAddressAtReturn"}
-KEY_MACRO = "duplicate-expression-not-reported-in-macro-expansion"
-MACRO_IDS = {"duplicateExpression"}
+KEY_MACRO = "redundancy-style-finding-not-reported-in-macro-expansion"
+MACRO_IDS = {"duplicateExpression", "knownConditionTrueFalse", "duplicateValueTernary", "duplicateExpressionTernary"}
 KNOWN = {
     KEY_USING: "F06a simplifyUsing has no notion of hiding: a variable or parameter with the name of a `using` alias (declared anywhere in "
                "the file, even later or in another function) has its uses replaced by the aliased type "
@@ -174,8 +174,9 @@ KNOWN = {
                "`typedef short * T` (tokens of a simplified typedef are skipped by the const checks)",
     KEY_PORT: "F06g findings differ by design: `AssignmentAddressToInteger` (and the three sibling ids of check64bit) is reported for `char c = p;` but "
               "not for `C c = p;` with `typedef char C` (check64bit requires `originalTypeName.empty()`, so that uintptr_t-like typedefs are not flagged)",
-    KEY_MACRO: "F06f findings differ by design: `duplicateExpression` is reported for `16 / ( 1 - 1 )` but not for `16 / ZERO` with `#define ZERO ( 1 - 1 )` "
-               "(operands that come from a macro expansion are skipped by the check)",
+    KEY_MACRO: "F06f findings differ by design: the style findings `duplicateExpression` (`16 / ( 1 - 1 )` vs `16 / ZERO` with `#define ZERO ( 1 - 1 )`) and "
+               "`knownConditionTrueFalse` / `duplicateValueTernary` (`( ( 2 ) > ( 1 ) ? .. )` vs `MAX ( 2 , 1 )`) are reported for the hand expansion but not inside a macro expansion "
+               "(tokens that come from a macro are skipped by these checks)",
     KEY_CHAIN: "F06c a `using` alias of a typedef name is expanded to the typedef NAME, which no longer exists: "
                "`typedef unsigned int uint; using Index = uint; int f(Index i)` becomes `int f ( uint i )` (typedef-of-typedef and using-of-using are expanded fully)",
 }
@@ -368,7 +369,8 @@ def dump_facts(ctx, text, cpp, tag):
                 kind = "known" if at.get("known") == "true" else ("possible" if at.get("possible") == "true" else ("impossible" if at.get("impossible") == "true" else "other"))
                 vs.append((at.get("intvalue") or at.get("tokvalue") and "tok" or at.get("floatvalue") or "?", kind))
             vals[m.group(1)] = sorted(vs)
-        for m in re.finditer(r"<token ([^>]*)/>", xml):
+        tl = re.search(r"<tokenlist>(.*?)</tokenlist>", xml, re.S)      # not the tokens of <directivelist>
+        for m in re.finditer(r"<token ([^>]*)/>", tl.group(1) if tl else ""):
             at = dict(re.findall(r'(\w[\w-]*)="([^"]*)"', m.group(1)))
             facts.append((at.get("str"), at.get("valueType-type"), at.get("valueType-sign"), at.get("valueType-pointer", "0"), tuple(vals.get(at.get("values"), []))))
     return ids, facts
@@ -433,6 +435,71 @@ def gen_macro_pair(rng):
         a = "#define T int\n#define ZERO ( 1 - 1 )\nT g ( T p ) {\nT * q = 0 ;\nif ( p == ZERO ) return * q ;\nreturn %d / ZERO ;\n}\n" % n
         b = "int g ( int p ) {\nint * q = 0 ;\nif ( p == ( 1 - 1 ) ) return * q ;\nreturn %d / ( 1 - 1 ) ;\n}\n" % n
     return a, b
+
+
+NESTED = [("INC", 1, "( ( x ) + 1 )", ["x"], lambda v: v[0] + 1), ("DBL", 1, "( ( y ) * 2 )", ["y"], lambda v: v[0] * 2),
+          ("ADD", 2, "( ( p ) + ( q ) )", ["p", "q"], lambda v: v[0] + v[1]), ("MAX", 2, "( ( a ) > ( b ) ? ( a ) : ( b ) )", ["a", "b"], lambda v: max(v)),
+          ("ABS", 1, "( ( v ) < 0 ? - ( v ) : ( v ) )", ["v"], lambda v: abs(v[0])), ("TWICE", 1, "( w + w )", ["w"], lambda v: 2 * v[0])]
+
+
+def gen_nested_expr(rng, macros, depth):
+    if depth == 0:
+        n = rng.randrange(0, 5)
+        return [str(n)], n
+    nm, ar, body, ps, fn = rng.choice(macros)
+    toks, vals = [nm, "("], []
+    deep = rng.randrange(ar)
+    for i in range(ar):
+        if i:
+            toks.append(",")
+        t, v = gen_nested_expr(rng, macros, depth - 1 if i == deep else rng.choice([0, 0, max(0, depth - 2)]))
+        toks += t; vals.append(v)
+    toks.append(")")
+    return toks, fn(vals)
+
+
+def gen_nested_macro_pair(rng):
+    """nested function-like invocations in argument position (INC ( DBL ( INC ( 3 ) ) ), MAX ( ABS ( MAX ( 1 , 2 ) ) , 3 )) whose value
+    indexes an array; the hand expansion is made by gcc -E (independent of simplecpp)"""
+    import subprocess
+
+    def call(m, inner):
+        """invocation of m with `inner` (tokens, value) in one argument position and small literals elsewhere"""
+        nm, ar, body, ps, fn = m
+        pos = rng.randrange(ar)
+        toks, vals = [nm, "("], []
+        for i in range(ar):
+            if i:
+                toks.append(",")
+            if i == pos:
+                toks += inner[0]; vals.append(inner[1])
+            else:
+                n = rng.randrange(0, 4)
+                toks.append(str(n)); vals.append(n)
+        toks.append(")")
+        return toks, fn(vals)
+
+    for _ in range(50):
+        macros = rng.sample(NESTED, rng.choice([2, 3]))
+        if rng.random() < 0.7:
+            # the indirect pattern F ( G ( F ( x ) ) ), F != G: every level has to be replaced (6.10.3.1), optionally wrapped once more
+            f, g = macros[0], macros[1]
+            n0 = rng.randrange(0, 4)
+            e = call(f, call(g, call(f, ([str(n0)], n0))))
+            if rng.random() < 0.4:
+                e = call(rng.choice(macros), e)
+            toks, v = e
+        else:
+            toks, v = gen_nested_expr(rng, macros, rng.choice([2, 3, 3, 4]))
+        if 0 <= v <= 60:
+            break
+    n = v if rng.random() < 0.6 else v + rng.choice([1, 3])
+    n = max(n, 1)
+    defs = "".join("#define %s(%s) %s\n" % (nm, " , ".join(ps), body) for nm, ar, body, ps, fn in macros)
+    prog = "int f ( int sel ) {\nint a [ %d ] = { 0 } ;\nint i = %s ;\nif ( sel ) return a [ i ] ;\nreturn i ;\n}\n" % (n, " ".join(toks))
+    a = defs + prog
+    r = subprocess.run(["gcc", "-E", "-P", "-undef", "-nostdinc", "-x", "c", "-"], input=a, stdout=subprocess.PIPE, stderr=subprocess.PIPE, text=True)
+    return a, r.stdout
 
 
 def gen_template_pair(rng):
@@ -512,6 +579,11 @@ def run(ctx, res):
         a, b = gen_macro_pair(rng)
         res.count("cli-macro-pair")
         cli_pair(ctx, res, "a text with macros and its hand expansion", a, b, False, dict(kind="text", cpp=False, a=a, b=b), facts=False, known=[(KEY_MACRO, MACRO_IDS)])
+    for i in range(60 if thorough else 5):
+        a, b = gen_nested_macro_pair(rng)
+        res.count("cli-nested-macro-pair")
+        cli_pair(ctx, res, "a text with nested macro invocations and its expansion (gcc -E)", a, b, False, dict(kind="text", cpp=False, a=a, b=b, facts=True),
+                 facts=True, known=[(KEY_MACRO, MACRO_IDS)])
     for i in range(40 if thorough else 3):
         a, b = gen_template_pair(rng)
         res.count("cli-template-pair")
@@ -525,7 +597,7 @@ def replay(ctx, res, rp):
     exe = ctx.harness("c06")
     if rp.get("kind") == "text":
         _seen.clear()
-        ok = cli_pair(ctx, res, "replayed pair", rp["a"], rp["b"], rp["cpp"], rp, facts=False)
+        ok = cli_pair(ctx, res, "replayed pair", rp["a"], rp["b"], rp["cpp"], rp, facts=bool(rp.get("facts")), known=[(KEY_MACRO, MACRO_IDS)])
         for v in res.violations:
             print(v["what"])
         print("replay: %s" % ("does not fail" if ok else "still fails"))
